@@ -23,11 +23,17 @@ pub trait VxIntoIter: Sized {
         ensures self.vx_items_ok(r.items@), r.pos@ == 0;
 }
 /// `c.iter()`
-pub trait VxIterRef {
+pub trait VxIterRef<'a> {
     type Item;
     spec fn vx_ref_items_ok(&self, items: Seq<Self::Item>) -> bool;
-    fn vx_iter(&self) -> (r: VxIter<Self::Item>)
+    fn vx_iter(&'a self) -> (r: VxIter<Self::Item>)
         ensures self.vx_ref_items_ok(r.items@), r.pos@ == 0;
+}
+impl<'a, T: 'a> VxIterRef<'a> for Vec<T> {
+    type Item = &'a T;
+    open spec fn vx_ref_items_ok(&self, items: Seq<&'a T>) -> bool { items.len() == self@.len() && forall|i: int| 0 <= i < items.len() ==> *(#[trigger] items[i]) == self@[i] }
+    #[verifier::external_body]
+    fn vx_iter(&'a self) -> (r: VxIter<&'a T>) { unimplemented!() }
 }
 /// `FromIterator`: start empty, take the items one by one
 pub trait VxCollect: Sized {
@@ -51,4 +57,20 @@ impl<T> VxCollect for Vec<T> {
     open spec fn vx_pushed(self, before: Self, item: T) -> bool { self@ == before@.push(item) }
     fn vx_new() -> (r: Self) { Vec::new() }
     fn vx_push(&mut self, item: T) { self.push(item); }
+}
+/// `impl FromIterator<Result<T, E>> for Result<Vec<T>, E>`: the items in order while they are `Ok`, else the first error
+impl<T, E> VxCollect for Result<Vec<T>, E> {
+    type Item = Result<T, E>;
+    open spec fn vx_is_empty(self) -> bool { self matches Ok(v) && v@.len() == 0 }
+    open spec fn vx_pushed(self, before: Self, item: Result<T, E>) -> bool {
+        match (before, item) {
+            (Ok(v), Ok(x)) => self matches Ok(w) && w@ == v@.push(x),
+            (Ok(_), Err(e)) => self == Err::<Vec<T>, E>(e),
+            (Err(e), _) => self == Err::<Vec<T>, E>(e),
+        }
+    }
+    #[verifier::external_body]
+    fn vx_new() -> (r: Self) { unimplemented!() }
+    #[verifier::external_body]
+    fn vx_push(&mut self, item: Result<T, E>) { unimplemented!() }
 }
